@@ -16,61 +16,32 @@
      own interleavings with stop() are part of every program: Prog.p_sched).
 
    [current] (Cli/MainEffects.v) is the behaviour of the tree as it is now, i.e. after the
-   repairs 204c2e5, d567ae1, f436ae3, 2d3e878; [unrepaired] is the tree before them.
-
-   The full statement is FALSE of [current] in one way (C19_tracing_refuted,
-   C19_restores_refuted): with -l -p <selection> every import of the program that the selection
-   matches gets a registration statement ending in LineProfiler.enable_by_count(), and nothing
-   disables it - the profiler is left enabled (and the next in-process run cannot enable its
-   own: C19_leak_breaks_next_run).  C19_restores_partial is everything else: four clauses for
-   ALL run sequences, and the full statement for sequences without registering runs.
-   C19_restores_if_fixed: with that balanced too the full statement holds; each of the five
-   repairs is necessary (the C19_..._needs_... theorems).  builtins.profile staying behind is not part of the
-   statement; it is modelled and compared ([effective_outcome]).
-
-   WHEN THE LEAK IS REPAIRED: set fx_autoprof in [current] (one line in Cli/MainEffects.v),
-   delete C19_tracing_refuted / C19_restores_refuted / C19_leak_breaks_next_run and the three
-   lemmas they cite (Cli/MainEffectsProofs.v: current_refuted, leak_breaks_next_run; the
-   general autoprof_needs_balance stays), and enable the theorem in the comment at the end. *)
+   repairs 204c2e5, d567ae1, f436ae3, 2d3e878, a77d816; [unrepaired] is the tree before them.
+   The full statement holds of [current] (C19_restores; C19_runs_invisible for runs interleaved
+   with ordinary use) - nothing is left for a _partial theorem - and each of the five repairs
+   is shown to be necessary (the C19_..._needs_... theorems: a main lacking it violates its
+   clause, with the exact wrong state).  builtins.profile staying behind is not part of the
+   statement; it is modelled and compared ([effective_outcome]). *)
 From LP Require Import Prelude.Py Explicit.Base Gen.GlobalProfiler Cli.MainEffects Cli.MainEffectsProofs.
 
-(* With -l -p <selection matching an import> the LineProfiler is left enabled, however the
-   program ends (here it simply returns, from an interpreter with no profiler enabled). *)
-Theorem C19_tracing_refuted :
-  exists s o p, usable (gp s) = true /\ tracing s = None /\ registers o p = true
-                /\ fst (main current o p s) = Returned
-                /\ tracing_ok s (snd (main current o p s)) = false
-                /\ tracing (snd (main current o p s)) = Some (Ext (next_prof s)).
-Proof. exact (autoprof_needs_balance current eq_refl). Qed.
+(* After any sequence of in-process runs - whatever the options (including -p selections whose
+   registrations switch the profiler on), however each program ends, whether main returns or
+   raises - argv, path, decorator, trace slot and threads are as found. *)
+Theorem C19_restores : C19_statement current.
+Proof. exact restores_current. Qed.
 
-Theorem C19_restores_refuted : ~ C19_statement current.
-Proof. exact current_refuted. Qed.
-
-(* consequence inside the quantifier (sequences of runs): the next run raises *)
-Theorem C19_leak_breaks_next_run :
-  fst (main current opts0 returns (snd (main current opts0 registering st0))) = Raised
-  /\ fst (main current opts0 returns st0) = Returned.
-Proof. exact leak_breaks_next_run. Qed.
-
-(* What holds of the tree as it is, for all interpreter states with a usable decorator and all
-   sequences of runs: argv, path, decorator and threads are as found - always; and everything
-   is as found when no run executes auto-profiling registrations ([no_registration]: no run has
-   -l together with a -p selection that matches one of its program's imports). *)
-Theorem C19_restores_partial :
-  forall s rs, usable (gp s) = true ->
-    argv_ok s (exec_runs current s rs) = true /\ path_ok s (exec_runs current s rs) = true
-    /\ profile_ok s (exec_runs current s rs) = true /\ timers_ok s (exec_runs current s rs) = true
-    /\ (no_registration rs = true -> restored s (exec_runs current s rs) = true).
-Proof. exact restores_current_partial. Qed.
+(* the same, spelled out for one call of main *)
+Theorem C19_restores_each_run :
+  forall s o p, usable (gp s) = true -> restored s (snd (main current o p s)) = true.
+Proof. exact restores_current_run. Qed.
 
 (* "... sequences of several in-process runs followed by ordinary use of the profile decorator":
    interleave kernprof.main runs (ARun) with enable() / disable() / decorations of
    line_profiler.profile in any way - what can be observed at the end (argv, path, the whole
    decorator object, trace slot, threads) is what the ordinary uses ALONE would have produced.
    In particular a user's explicit enable()/disable() survives every later run. *)
-Theorem C19_runs_invisible_partial :
-  forall acts s, no_registering_act acts = true ->
-                 veq (exec_acts current s acts) (exec_acts current s (filter is_user acts)).
+Theorem C19_runs_invisible :
+  forall acts s, veq (exec_acts current s acts) (exec_acts current s (filter is_user acts)).
 Proof. exact runs_invisible_current. Qed.
 
 (* any main with these five behaviours satisfies C19 *)
@@ -126,7 +97,7 @@ Proof. exact autoprof_needs_balance. Qed.
 (* ---- the periodic-dump timer (-i N), with stop() falling anywhere - also into a dump ------------ *)
 (* Whatever the timer did before rt.stop() (expiries, dumps started and finished, in any
    interleaving) and whatever happens afterwards: no timer is armed, none can be armed again,
-   and when the dumps in progress have returned no helper thread is left.  (C19_restores_partial / _if_fixed use
+   and when the dumps in progress have returned no helper thread is left.  (C19_restores uses
    this for every program: Prog.p_sched is universally quantified there.) *)
 Theorem C19_timer_stop_final :
   forall pre post : list tevent,
@@ -142,6 +113,12 @@ Theorem C19_timer_needs_rearm_before_dump :
   /\ rt_armed (rt_exec false rt_init [Fire; Stop; DumpDone]) = 1%nat
   /\ rt_leftover false [] = O /\ rt_leftover false [Fire; DumpDone] = O.
 Proof. exact rt_dump_first_leaks. Qed.
+
+(* ... and a leaked profiler makes the next in-process run raise (before a77d816) *)
+Theorem C19_leak_broke_next_run :
+  fst (main unrepaired opts0 returns (snd (main unrepaired opts0 registering st0))) = Raised
+  /\ fst (main unrepaired opts0 returns st0) = Returned.
+Proof. exact leak_breaks_next_run_unrepaired. Qed.
 
 Theorem C19_unrepaired_refuted : ~ C19_statement unrepaired.
 Proof. exact unrepaired_refuted. Qed.
@@ -161,12 +138,3 @@ Theorem C19_nonvacuous :
      = ["/T/setupd"; "/T"; "/lib"; "/prog-added"]
   /\ cur (argv (snd (main_body current opts_module (mkProg Return false true true 0 []) st0))) = ["mod"; "x"; "prog-added"].
 Proof. exact nonvacuous. Qed.
-
-(* AFTER THE REPAIR of the auto-profiling leak (fx_autoprof of [current] true):
-
-Theorem C19_restores : C19_statement current.
-Proof. exact (restores_if_fixed current eq_refl eq_refl eq_refl eq_refl eq_refl). Qed.
-Theorem C19_runs_invisible :
-  forall acts s, veq (exec_acts current s acts) (exec_acts current s (filter is_user acts)).
-Proof. intros acts s. apply runs_invisible; try reflexivity; [left; reflexivity|unfold veq; auto]. Qed.
-*)
